@@ -553,6 +553,10 @@ func c04Program(c *Ctx, b *Batch, pkg string, cs c04Case, src string, per int) {
 				}
 				if msg := c04Diff(want, got, "$"+v.Variable); strings.HasPrefix(msg, "KNOWN ") {
 					fail("violation", "nil-list-of-custom-marshaled-elements-sent-as-empty-list", fmt.Sprintf("%s: %s (argument %s; sent %s)", opName, msg[6:], trunc(args[i], 200), trunc(varsText, 300)), nil, nil)
+				} else if msg != "" && strings.Contains(msg, ": dropped") && cs.Cfg.Optional == "generic" && genericWrapsMarshaledStruct(src) {
+					// F-06g on the input side: a struct held BY VALUE in the generic optional type is marshaled without
+					// its generated pointer-receiver MarshalJSON, so its json:"-" fields never reach the request
+					fail("violation", "input-field-dropped:generic-optional-wraps-struct-by-value", fmt.Sprintf("%s: %s (argument %s; sent %s)", opName, msg, trunc(args[i], 200), trunc(varsText, 300)), nil, nil)
 				} else if msg != "" {
 					fail("violation", "variable-value-differs", fmt.Sprintf("%s: %s (argument %s; sent %s)", opName, msg, trunc(args[i], 200), trunc(varsText, 300)), nil, nil)
 				}
